@@ -357,6 +357,104 @@ def main():
     for c in cases[:2]:
         ck.sample({"ttl": c["ttl"], "check": c["check"], "state": c["state"], "ops": c["ops"][:6]})
 
+    # ------------------------------------------------------------------ A2. histories over locations with parents
+    # A parent is opened by the request that walks to it (System.GetLocation): already in memory under TTL forever, loaded in
+    # the middle of the request under TTL never / an expired TTL.  Same histories under the three TTLs and against
+    # core.Location operated directly (SimpleLocationProvider: nothing is ever loaded).  The histories are those of C09
+    # (parents set, replaced, looped; rules with pattern conditions whose actions write through Env.*).
+    import importlib
+    sys.path.insert(0, os.path.dirname(os.path.abspath(__file__)))
+    c09 = importlib.import_module("c09")
+    WALK_ERRS = ("dupId", "notFound", "loop", "noProvider")
+    pcs, pmeta = [], []
+    for hnum in range(36 if not ck.thorough else 500):
+        locs, pops = c09.gen_case(rng, ck.thorough)
+        ops = []
+        for op in pops:
+            if op["op"] == "snapshot":
+                continue
+            op = copy.deepcopy(op)
+            if op["op"] == "setParents":
+                op["parents"] = [x for x in op["parents"] if x != "nowhere"]      # the System creates a location that is asked for
+            ops.append(op)
+        if not any(o["op"] == "setParents" and o["parents"] for o in ops):
+            continue
+        for l in locs:
+            ops += [{"op": "search", "pattern": {"k": "?v"}, "inherited": False, "loc": l}, {"op": "search", "pattern": {"written": "?v"}, "inherited": False, "loc": l},
+                    {"op": "listRules", "inherited": False, "loc": l}, {"op": "size", "loc": l}]
+        for state in ("indexed", "linear"):
+            for ttl in TTLS:
+                pcs.append({"kind": "c17.sys", "ttl": ttl, "check": False, "state": state, "locs": locs, "ops": copy.deepcopy(ops)})
+                pmeta.append((hnum, state, ttl))
+    pimpl = run_cases(drv, pcs)
+
+    def par_canon(c, i):
+        outs = (i or {}).get("outs")
+        if not isinstance(outs, list) or len(outs) != len(c["ops"]):
+            return None
+        t = {}
+        res = []
+        for op, o in zip(c["ops"], outs):
+            a = canon17(op, o, t)
+            if isinstance(o, dict) and o.get("err") in WALK_ERRS:
+                a = ("err", "walk")          # which of two errors lying on one ancestor walk is met first is not part of the answer
+            res.append(a)
+        return res
+    pgroups = collections.defaultdict(dict)
+    for c, i, (hnum, state, ttl) in zip(pcs, pimpl, pmeta):
+        ck.count(c)
+        stats["parent_cases"] += 1; stats["parent_ops"] += len(c["ops"])
+        if isinstance(i, dict) and i.get("err") in ("crash", "hang", "panic"):
+            report(ck, stats, "System %s on a history over locations with parents (ttl=%s %s)" % (i.get("err"), ttl, state), {"case": c, "impl": i}, "crash")
+            continue
+        pgroups[(hnum, state)][ttl] = (par_canon(c, i), c)
+    plc, plref = [], []
+    for key, by_ttl in pgroups.items():
+        ref_ttl = "forever" if "forever" in by_ttl else sorted(by_ttl)[0]
+        ref, rc_ = by_ttl[ref_ttl]
+        if ref is None:
+            report(ck, stats, "history over locations with parents could not be run (ttl=%s)" % ref_ttl, {"case": rc_}, "corr")
+            continue
+        for ttl, (ci, c) in by_ttl.items():
+            if ttl == ref_ttl or ci == ref:
+                continue
+            # believed only when it reproduces on an isolated re-run of both settings
+            again = run_cases(drv, [c, rc_])
+            a2, r2 = par_canon(c, again[0]), par_canon(rc_, again[1])
+            if a2 is None or r2 is None or a2 == r2:
+                stats["parent_retry_cleared"] += 1
+                continue
+            k = next((k for k in range(len(a2)) if a2[k] != r2[k]), 0)
+            report(ck, stats, "results depend on the cache TTL (locations with parents, %s state): request %d %s gives %s under ttl=%s and %s under ttl=%s; history: %s" % (
+                key[1], k, canon(c["ops"][k])[:200], a2[k][1][:200], ttl, r2[k][1][:200], ref_ttl, short_hist(c["ops"], k)),
+                {"case": dict(c, ops=c["ops"][: k + 1]), "other_ttl": ref_ttl, "op_index": k}, "ttl-parents")
+            break
+        stats["parent_ttl_groups"] += 1
+        lc = to_loc_case(rc_); lc["locs"] = rc_["locs"]
+        plc.append(lc); plref.append((ref, rc_))
+    plimpl = run_cases(drv, plc)
+    for lc, li, (ref, c) in zip(plc, plimpl, plref):
+        louts = (li or {}).get("outs") or []
+        t = {}
+        got = []
+        for j, op in enumerate(lc["ops"]):
+            o = louts[j] if j < len(louts) else None
+            a = canon17(op, o, t)
+            if isinstance(o, dict) and o.get("err") in WALK_ERRS:
+                a = ("err", "walk")
+            got.append(a)
+        stats["parent_direct_runs"] += 1
+        if got != ref:
+            j = next((j for j in range(min(len(got), len(ref))) if got[j] != ref[j]), 0)
+            op = lc["ops"][j]
+            # a System installs the cron hooks on every location it opens: the rem hook reads the fact first, so removing what is
+            # not there is an error through the System and ok directly; nothing changes either way
+            if op["op"] in ("remFact", "remRule", "enableRule") and ref[j][0] == "err" and got[j][0] == "ok":
+                stats["parent_direct_rem_missing"] += 1
+                continue
+            report(ck, stats, "through the System (ttl=%s, %s state) differs from operating core.Location directly at request %d %s: system=%s direct=%s; history: %s" % (
+                c["ttl"], c["state"], j, canon(op)[:200], ref[j][1][:200], got[j][1][:200], short_hist(lc["ops"], j)), {"case": c, "loc_case": lc, "op_index": j}, "direct-parents")
+
     # ------------------------------------------------------------------ B. the exported protocol, step by step
     pcases = []
     for r in range(300 if not ck.thorough else 2500):
